@@ -600,6 +600,8 @@ class Share(object):
 
     def insert(self, index, key, item):
         """Insert key:item at index."""
+        if key not in self._data.__dict__ and not REO_IdentPub.match(key):
+            raise KeyError("%s invalid key '%s'" % (self.__class__.__name__, key))
         self._data.__dict__.insert(index, key, item)
         #don't update stamp here since used by change
 
